@@ -46,6 +46,8 @@ type clientSet struct {
 	success  map[cmdKey]bool
 	errored  map[*Node]map[cmdKey]int
 	sent     map[*Node]map[cmdKey]*clientpb.Command
+	started  map[cmdKey]time.Duration
+	pipeCtr  uint64
 }
 
 func newServerCtx(ctx context.Context) gorums.ServerCtx {
@@ -68,7 +70,7 @@ func clientCmd(c uint32, s uint64) *clientpb.Command {
 
 func newClientSet(w *World) *clientSet {
 	cs := &clientSet{w: w, inFlight: map[*Node]map[cmdKey]bool{}, success: map[cmdKey]bool{}, errored: map[*Node]map[cmdKey]int{},
-		sent: map[*Node]map[cmdKey]*clientpb.Command{}}
+		sent: map[*Node]map[cmdKey]*clientpb.Command{}, started: map[cmdKey]time.Duration{}}
 	for _, nd := range w.nodes {
 		cs.inFlight[nd] = map[cmdKey]bool{}
 		cs.errored[nd] = map[cmdKey]int{}
@@ -79,8 +81,13 @@ func newClientSet(w *World) *clientSet {
 		c := c
 		period := time.Duration(w.plan.ViewDur.Ms) * time.Millisecond / 4
 		var tick func()
+		pipelined := w.plan.knob("pipeline", 0) > 1 && c%2 == 0
 		tick = func() {
-			cs.drive(uint32(c))
+			if pipelined {
+				cs.drivePipelined(uint32(c))
+			} else {
+				cs.drive(uint32(c))
+			}
 			w.after(period+time.Duration(c)*time.Microsecond, "client", tick)
 		}
 		w.at(time.Duration(c)*time.Microsecond, "client", tick)
@@ -134,7 +141,7 @@ func (cs *clientSet) drive(c uint32) {
 		go func() {
 			_, err := nd.cio.ExecCommand(newServerCtx(w.ctx), cmd)
 			cs.mu.Lock()
-			cs.outcomes = append(cs.outcomes, outcome{nd: nd, key: key, ok: err == nil, step: w.step})
+			cs.outcomes = append(cs.outcomes, outcome{nd: nd, key: key, ok: err == nil})
 			cs.mu.Unlock()
 		}()
 	}
@@ -143,6 +150,62 @@ func (cs *clientSet) drive(c uint32) {
 	for _, nd := range w.nodes {
 		if !nd.crashed {
 			w.scheduleProcess(nd, 0)
+		}
+	}
+}
+
+// drivePipelined: a client that, like the repository's own client, keeps several commands outstanding and does
+// not retry. Each command reaches each replica after its own delay, so a replica may receive seq+1 before seq.
+func (cs *clientSet) drivePipelined(c uint32) {
+	w := cs.w
+	cs.collect()
+	win := uint64(w.plan.knob("pipeline", 2))
+	base := cs.seq[c-1]
+	// the oldest outstanding command is finished once a quorum of replicas has answered, or it is old
+	for {
+		key := cmdKey{c, base}
+		answered := 0
+		for _, nd := range w.nodes {
+			if _, ever := cs.sent[nd][key]; ever && !cs.inFlight[nd][key] {
+				answered++
+			}
+		}
+		started, ok := cs.started[key]
+		if ok && (answered >= w.orc.q || w.now()-started > 6*time.Duration(w.plan.ViewDur.Ms)*time.Millisecond) {
+			base++
+			cs.seq[c-1] = base
+			w.probe("c06-client-next")
+			continue
+		}
+		break
+	}
+	for s := base; s < base+win; s++ {
+		key := cmdKey{c, s}
+		if _, ok := cs.started[key]; ok {
+			continue
+		}
+		cs.started[key] = w.now()
+		for _, nd := range w.nodes {
+			nd := nd
+			cs.pipeCtr++
+			d := time.Duration(mix(w.plan.Inner, 0x70697065, uint64(nd.slot), cs.pipeCtr)%uint64(w.plan.ViewDur.Ms*500+1)) * time.Microsecond
+			w.after(d, "client-submit", func() {
+				if nd.crashed || nd.pausedUntil > w.now() || w.ended {
+					return
+				}
+				cmd := clientCmd(c, key.s)
+				cs.sent[nd][key] = cmd
+				cs.inFlight[nd][key] = true
+				w.probe("c06-submit-pipelined")
+				go func() {
+					_, err := nd.cio.ExecCommand(newServerCtx(w.ctx), cmd)
+					cs.mu.Lock()
+					cs.outcomes = append(cs.outcomes, outcome{nd: nd, key: key, ok: err == nil})
+					cs.mu.Unlock()
+				}()
+				synctestWait()
+				w.scheduleProcess(nd, 0)
+			})
 		}
 	}
 }
